@@ -187,7 +187,8 @@ class Bus (objects.DBusObject):
         for rule_id in proto.matchRules:
             self.router.delMatch(rule_id)
 
-        for busName in proto.busNames.keys():
+        # snapshot: ReleaseName drops the entries it is given
+        for busName in list(proto.busNames.keys()):
             self.dbus_ReleaseName(busName, proto.uniqueName)
 
         if proto.uniqueName:
@@ -442,19 +443,23 @@ class Bus (objects.DBusObject):
         if queue is None:
             return client.NAME_NON_EXISTENT
 
-        owner = queue[0]
-
-        if caller is not owner:
+        if caller not in queue:
             return client.NAME_NOT_OWNER
 
-        del queue[0]
+        was_owner = queue[0] is caller
 
-        if caller.isConnected:
-            self.sendSignal(caller, 'NameLost', 's', name)
+        # owner or merely waiting: either way the caller gives the name up
+        queue.remove(caller)
+        caller.busNames.pop(name, None)
 
-        if queue:
-            self.sendSignal(queue[0], 'NameAcquired', 's', name)
-        else:
+        if was_owner:
+            if caller.isConnected:
+                self.sendSignal(caller, 'NameLost', 's', name)
+
+            if queue:
+                self.sendSignal(queue[0], 'NameAcquired', 's', name)
+
+        if not queue:
             del self.busNames[name]
 
         return client.NAME_RELEASED
